@@ -10,6 +10,8 @@ run-time data).  Decided statically:
   R-C11-rejections        aliases and non-string map keys are rejected with an error in both loaders
   R-C11-serde-conversion  serde_yaml / serde_json -> Value: variant table, and every map entry / list element of the source is
                           inserted exactly once (none dropped, none duplicated)
+  R-C11-format-fallback   an entry point that reads one text as JSON and as YAML (run_checks, the test-spec readers) tries the second
+                          format on every path on which the first parse failed (no text-dependent shortcut)
 """
 import re
 from engine import ai, mirlib as M
@@ -506,12 +508,85 @@ def serde_conversion(ctx, cr):
                    sample={"loader": "serde_json", "object_paths": sorted(map(str, obj))})
 
 
+PARSERS = {"serde_json::from_str": "JSON", "serde_yaml::from_str": "YAML"}
+
+
+def format_fallback(ctx, cr):
+    """Where an entry point reads text as one format and falls back to the other (run_checks: JSON then YAML; the test-spec readers:
+    YAML then JSON), the fallback is unconditional: on every path on which the first parse returned Err the second parse is attempted
+    before the function returns.  A fallback that is skipped for some texts (e.g. "it opens like JSON, so it is JSON") makes flow-style
+    YAML mean something else through that entry point than through `validate`, whose loader has no such branch."""
+    from engine import flow
+    rule = "R-C11-format-fallback"
+    cands = []
+    for k, f in sorted(cr.fns.items()):
+        if f.get("file", "").endswith("_tests.rs") or "::tests::" in k or f.get("kind") not in ("fn", "assoc", "closure"):
+            continue
+        own = set(PARSERS.get(M.norm_path(t["fn"].get("path", ""))) for bi, t in M.iter_calls(f)) - {None}
+        if not own:
+            continue
+        unit = flow.unit_functions(cr, k, [k.rsplit("::", 1)[0].lstrip("<")], depth=2)
+        both = set(own)
+        for uk in unit:
+            uf = cr.fns.get(uk)
+            if uf:
+                both |= set(PARSERS.get(M.norm_path(t["fn"].get("path", ""))) for bi, t in M.iter_calls(uf)) - {None}
+        if both == {"JSON", "YAML"}:
+            cands.append(k)
+    # keep the outermost function of each unit (a closure / helper that is part of another candidate's unit is analysed there)
+    roots = [k for k in cands if not any(o != k and k in flow.unit_functions(cr, o, [o.rsplit("::", 1)[0].lstrip("<")], depth=2) for o in cands)]
+    n = 0
+    for k in roots:
+        f = cr.fns[k]
+        skipped = []
+        seen_both = []
+
+        class H(ai.Hooks):
+            def call(self, a, st, term, callee, args):
+                fmt = PARSERS.get(M.norm_path(callee.get("path", "")))
+                mon = st.mon or Mon()
+                if fmt is None or term.get("to") is None:
+                    return None
+                tried = mon.get("tried", ())
+                ok = ("enum", ai.RESULT, 0, (a.sym(st, a.site(st, ":doc")),))
+                err = ("enum", ai.RESULT, 1, (a.sym(st, a.site(st, ":err")),))
+                return [(ok, mon.set(tried=tried + (fmt,), failed=None)), (err, mon.set(tried=tried + (fmt,), failed=fmt))]
+
+            def inline(self, a, st, key, fn):
+                return fn.get("file") == f.get("file") and (fn.get("kind") == "closure" or ai.is_private_fn(fn))
+
+            def ret(self, a, st, v):
+                mon = st.mon or Mon()
+                tried = mon.get("tried", ())
+                if len(set(tried)) == 2:
+                    seen_both.append(tried)
+                if mon.get("failed") and len(set(tried)) == 1:
+                    skipped.append((tried[0], " > ".join("bb%d(l.%s)" % (t[2], t[3]) for t in st.trace[-4:])))
+        a = ai.AI(cr, H(), max_states=300000)
+        try:
+            a.run(k, mon=Mon())
+        except ai.Undecided as e:
+            ctx.ob(rule, "%s:%s" % (rule, k), False, "undecided %s" % e, fn=f)
+            continue
+        ctx.states += a.n_states
+        n += 1
+        other = {"JSON": "YAML", "YAML": "JSON"}
+        ok = not skipped and bool(seen_both)
+        ctx.ob(rule, "%s:%s" % (rule, k), ok, "the second format is tried whenever the first parse fails (%d paths reach both)" % len(seen_both) if ok else
+               ("after the %s parse failed a path returns without trying %s [%s]: documents that only the other format accepts mean something else through this entry point" % (
+                   skipped[0][0], other[skipped[0][0]], skipped[0][1]) if skipped else "no path reaches both parsers"), fn=f,
+               sample={"fn": k, "paths_reaching_both": len(seen_both)} if n == 1 else None)
+    ctx.note_analysed("format_fallbacks", roots)
+    ctx.ob(rule, rule + ":coverage", n >= 3, "%d functions that read one text as JSON and as YAML analysed (floor 3: run_checks' loader and the two test-spec readers)" % n)
+
+
 def run(ctx):
     cr = ctx.lib
     tag_tables(ctx, cr)
     scalar_cascade(ctx, cr)
     rejections(ctx, cr)
     serde_conversion(ctx, cr)
+    format_fallback(ctx, cr)
     ctx.assumptions += [
         "which spellings str::parse::<i64/f64/bool> and serde_yaml accept (inf, True, 0x10, ...) is dependency/std behaviour and not decided",
         "key and list order preservation rests on the IndexMap / Vec container types (checked by C05)",
